@@ -1,4 +1,5 @@
 import Aurora.Lemmas.Upload
+import Aurora.Lemmas.SpecTree
 import Aurora.Generated.Consts
 /-!
 # C02 — Content reference is the Aurora tree hash of the bytes alone
@@ -63,6 +64,16 @@ theorem C02_pipeline_succeeds (C B : Nat) (hC : 0 < C) (hB : 2 ≤ B) (segs : Li
     simpa using leafData_ne_nil C segs.flatten
   obtain ⟨r, hr⟩ := rootG_enough (wrapE cref) B hB _ _ (Nat.le_refl _) hne
   exact ⟨r.ref, by simp only [hr, Option.map_some]⟩
+
+/-- **The tree behind the specification is well formed** (`levelUp_tree_is_WF`): the bottom-up
+    construction run on trees (`specTree`) yields a tree satisfying the recursive shape invariant
+    `WF` that the reader (C01/C07) and the traversal (C09) rely on, its leaves concatenate to the
+    data, and `Spec.root` is exactly its reference. -/
+theorem C02_levelUp_tree_is_WF (C B : Nat) (hC : 0 < C) (hB : 2 ≤ B) (data : Bytes) :
+    ∃ t, specTree C B data = some t ∧ (∃ h, WF C B h t) ∧ t.flat = data ∧
+      Spec.root cref C B data = some (t.ref cref) := by
+  obtain ⟨t, ht, hw, hf⟩ := specTree_WF C B hC hB data
+  exact ⟨t, ht, hw, hf, by rw [specRoot_eq_tree cref C B (by omega), ht]; rfl⟩
 
 /-- **Generated constants = model instance**: the numbers the drivers run the models with are the
     ones extracted from `/repo/pkg/boson` on this run, `ChunkSize = SectionSize * Branches`
